@@ -348,6 +348,17 @@ func checkC16(c *ev.Ctx) {
 				return
 			}
 			ncalls := r.Range(1, 8)
+			if i%67 == 3 {
+				// one Write: >= 64 KiB incompressible, then far more than 2 MiB highly compressible
+				ncalls = 0
+				cfg.Matcher = lzma.HashTable4
+				d := append(gen.Data(r, "random", r.Pick(66000, 68000, 80000)), make([]byte, 2<<20+300000)...)
+				if _, err := w.Write(d); err != nil {
+					werr = err
+					return
+				}
+				hist = append(hist, fmt.Sprintf("Wrandom+zeros%d", len(d)))
+			}
 			for j := 0; j < ncalls; j++ {
 				fam := []string{"random", "text", "zeros", "lowent", "random", "altseg"}[r.Intn(6)]
 				n := r.Pick(0, 1, 100, 5000, 66000, 140000)
@@ -369,7 +380,13 @@ func checkC16(c *ev.Ctx) {
 			}
 			werr = w.Close()
 		})
-		if pn != nil || werr != nil {
+		if pn != nil {
+			// the writer's own assertions about the chunk limits end as panics
+			c.Violation("writer-panic:"+firstLine(pn.Value), map[string]any{"case_id": id, "history": hist, "dictcap": cfg.DictCap, "bufsize": cfg.BufSize,
+				"what": "Writer2 panicked while building chunks: " + pn.Value, "stack": pn.Stack})
+			return
+		}
+		if werr != nil {
 			// judged by C08; here only emitted headers are of interest
 			c.Count("writer_runs_with_error", 1)
 		}
